@@ -88,6 +88,15 @@ def _try_to_reorder(
             *args,
             **kwargs
             ) -> _Ret:
+        # The call is repeated after reordering,
+        # so store the items of arguments that are iterators
+        # (the first attempt would exhaust them).
+        args = tuple(
+            list(x) if isinstance(x, _abc.Iterator) else x
+            for x in args)
+        kwargs = {
+            k: list(x) if isinstance(x, _abc.Iterator) else x
+            for k, x in kwargs.items()}
         with _ReorderingContext(bdd):
             return func(
                 bdd,
